@@ -605,6 +605,7 @@ func lcOracles(rc *core.RunCtx, env *Env, sc *lcScenario, mon *Monitor, p lcPara
 				if ncrash > 0 {
 					rc.Violate2("C05", "message-lost-across-restart", "%s: %s was neither delivered nor dead-lettered (crashes=%d within budget %d)", id, s.m, ncrash, in.Spec.MaxRestarts)
 					if s.m.Op != cPanic {
+						rc.Violate2("C03", "lost-message/after-restart", "%s: %s accepted by a started, not-stopped actor (restarted %d times) but never processed at quiescence", id, s.m, ncrash)
 						rc.Violate2("C01", "lost-message/across-restart", "%s: %s (not a crashing message) was neither delivered nor dead-lettered although the actor stayed live (crashes=%d within budget %d)", id, s.m, ncrash, in.Spec.MaxRestarts)
 					}
 				} else {
@@ -908,6 +909,10 @@ func init() {
 	core.Register(&core.Profile{Property: "C02", Name: "engine-budget", Weight: 1, Cfg: cfgEngine,
 		Run: runLifecycle(lcParams{focus: "C02", stops: true, crashes: true, lifeCrashes: true, exceed: true}),
 		Doc: base + "as 'engine', with one actor driven beyond its restart budget (also while the restart buffer is replayed, with a backlog larger than the batch): no second worker may appear for an actor that is going down"})
+	core.Register(&core.Profile{Property: "C03", Name: "engine-restarts", Weight: 1, Cfg: cfgEngine,
+		Run: runLifecycle(lcParams{focus: "C03", crashes: true, lifeCrashes: true}),
+		Doc: base + "stop-free, with crashes within the restart budget in Initialized/Started (also of the very first incarnation, restarted from the spawning goroutine before the inbox was opened) and on messages; oracle: at quiescence every message accepted by the started, not-stopped actor has been processed",
+		Faults: []string{"actor-crash-in-Initialized", "actor-crash-in-Started", "actor-crash-in-Receive"}})
 	core.Register(&core.Profile{Property: "C03", Name: "engine", Weight: 1, Cfg: cfgEngine,
 		Run: runLifecycle(lcParams{focus: "C03"}),
 		Doc: base + "stop-free and crash-free; oracle: at quiescence every send that produced no dead letter has been delivered"})
